@@ -199,16 +199,6 @@ structure Answer where
   startDistance : Rat
   endDistance : Rat
 
-/-- total distance (time: divided by the link's speed) between link end vertices and the positions of
-their end nodes; 0 when all junction vertices coincide exactly -/
-def SNet.gapBudget (sn : SNet) (o : Opt) : Rat :=
-  sn.links.foldl (fun acc l =>
-    match l.pts.head?, l.pts.getLast?, sn.pos.find? (·.1 == l.a), sn.pos.find? (·.1 == l.b) with
-    | some p, some q, some a, some b =>
-      let g := segLen p a.2 + segLen q b.2
-      acc + 2 * (match o with | .distance => g | .time => g / l.speed)
-    | _, _, _, _ => acc) 0
-
 /-- every link's end nodes lie at its end points (within the identification tolerance) -/
 def SNet.endsOk (sn : SNet) : Bool :=
   sn.links.all fun l =>
@@ -282,12 +272,8 @@ def judgeQuery (sn : SNet) (o : Opt) (exact : Bool) (from_ to : Pt Rat) (ans : A
         match best with
         | none => some "route-between-unconnected-nodes"
         | some b =>
-          if closeTo exact b c then none
-          -- links whose end vertices are only NEAR their end nodes (inside the identification tolerance) are
-          -- shorter than the heuristic's node-to-node distance by up to these gaps; an excess within the
-          -- total of the gaps is reported under its own name (known finding), anything larger is not
-          else if b < c && c - b ≤ sn.gapBudget o then some "cost-exceeds-the-minimum-by-less-than-the-identification-gaps"
-          else some "cost-not-minimal"
+          -- (also when link end vertices are only NEAR their end nodes: since fix 3 the heuristic is scaled)
+          if closeTo exact b c then none else some "cost-not-minimal"
   let sd (s t : Nat) : Option String :=
     match sn.pos.find? (·.1 == s), sn.pos.find? (·.1 == t) with
     | some a, some b =>
